@@ -87,27 +87,28 @@ func isLocalhost(n enc.Name) bool {
 // ---- steps
 
 type fwStep struct {
-	Kind     string   // interest, data, fib, strategy, sleep, reap
-	Face     uint64   `json:",omitempty"`
-	Name     string   `json:",omitempty"`
-	CBP      bool     `json:",omitempty"`
-	MBF      bool     `json:",omitempty"`
-	Hints    []string `json:",omitempty"`
-	Nonce    *uint32  `json:",omitempty"`
-	HopLimit *int     `json:",omitempty"`
-	LifeMs   *int     `json:",omitempty"`
-	Token    string   `json:",omitempty"` // hex
-	NextHop  *uint64  `json:",omitempty"`
-	FreshMs  *int     `json:",omitempty"`
-	TokMode  string   `json:",omitempty"`
-	FibOp    string   `json:",omitempty"`
-	Cost     uint64   `json:",omitempty"`
-	Strategy string   `json:",omitempty"`
-	SleepMs  int      `json:",omitempty"`
-	Sends    []string `json:",omitempty"` // observed (filled after the step)
-	name     enc.Name
-	hints    []enc.Name
-	token    []byte
+	Kind          string   // interest, data, fib, strategy, sleep, reap
+	Face          uint64   `json:",omitempty"`
+	Name          string   `json:",omitempty"`
+	CBP           bool     `json:",omitempty"`
+	MBF           bool     `json:",omitempty"`
+	Hints         []string `json:",omitempty"`
+	Nonce         *uint32  `json:",omitempty"`
+	HopLimit      *int     `json:",omitempty"`
+	LifeMs        *int     `json:",omitempty"`
+	Token         string   `json:",omitempty"` // hex
+	NextHop       *uint64  `json:",omitempty"`
+	FreshMs       *int     `json:",omitempty"`
+	TokMode       string   `json:",omitempty"`
+	FibOp         string   `json:",omitempty"`
+	Cost          uint64   `json:",omitempty"`
+	Strategy      string   `json:",omitempty"`
+	SleepMs       int      `json:",omitempty"`
+	ClaimedInFace *uint64  `json:",omitempty"` // IncomingFaceId header supplied by the peer (must be ignored)
+	Sends         []string `json:",omitempty"` // observed (filled after the step)
+	name          enc.Name
+	hints         []enc.Name
+	token         []byte
 }
 
 func buildInterestWire(st *fwStep) []byte {
@@ -188,6 +189,7 @@ type fwProfile struct {
 }
 
 type fwRun struct {
+	spoofRng   *rand.Rand
 	c          *h.Ctx
 	id         string
 	prop       string
@@ -420,6 +422,11 @@ func (fr *fwRun) run(p fwProfile) {
 					st.token = hexBytes(e.token)
 				}
 			}
+			if len(st.name) == 0 {
+				// Data always carries at least one name component (a producer's Data named "/" is
+				// not even dispatched to a forwarding thread by the link service)
+				st.name = fr.u.Extend(r, st.name, 2)
+			}
 			st.Name = st.name.String()
 			if st.TokMode == "" {
 				switch r.Intn(8) {
@@ -559,6 +566,21 @@ func (fr *fwRun) motif(p fwProfile, nonces []uint32) {
 		data(&fresh)
 	}
 	fr.c.Count("motifs_played", 1)
+}
+
+// spoofHeader: one packet in twelve carries an IncomingFaceId link-protocol header naming a local
+// face, as a hostile peer could send it; the forwarder must take no notice (the model does not).
+func (fr *fwRun) spoofHeader(st *fwStep) *uint64 {
+	if fr.spoofRng == nil {
+		fr.spoofRng = fr.c.Rng(fr.id + "/spoof")
+	}
+	if fr.spoofRng.Intn(12) != 0 {
+		return nil
+	}
+	v := uint64(1 + fr.spoofRng.Intn(2))
+	st.ClaimedInFace = &v
+	fr.c.Count("packets_with_peer_supplied_incoming_face_id", 1)
+	return &v
 }
 
 func hexBytes(s string) []byte {
@@ -714,7 +736,7 @@ func (fr *fwRun) stepInterest(st *fwStep) {
 	m := fr.m
 	F := m.faces[st.Face]
 	wire := buildInterestWire(st)
-	pkt, err := fr.sim.Ingest(wire, st.Face, st.token, st.NextHop)
+	pkt, err := fr.sim.IngestSpoof(wire, st.Face, st.token, st.NextHop, fr.spoofHeader(st))
 	if err != nil {
 		fr.c.Inconclusive("harness Interest was not queued by the link service: " + err.Error())
 		fr.stop = true
@@ -1071,9 +1093,20 @@ func (fr *fwRun) stepData(st *fwStep) {
 		fr.stop = true
 		return
 	}
-	pkt, err := fr.sim.Ingest(wire, st.Face, st.token, nil)
+	pkt, err := fr.sim.IngestSpoof(wire, st.Face, st.token, nil, fr.spoofHeader(st))
+	if err != nil && len(st.token) == 6 && (st.token[0] != 0 || st.token[1] != 0) {
+		// a 6-byte token is in this forwarder's format; one that names a forwarding thread that does
+		// not exist is dropped by the link service's token dispatch: nothing reaches the tables,
+		// nothing may be sent (same expectation as for an unknown 6-byte token)
+		fr.c.Count("data_dropped_by_token_dispatch", 1)
+		if sends := fr.sim.TakeSends(); len(sends) > 0 {
+			fr.record(st, sends)
+			fr.fail("C01", "C01:data-to-face-without-pending-interest:token-unknown", "Data whose 6-byte PIT token names no forwarding thread caused packets to be sent", nil)
+		}
+		return
+	}
 	if err != nil {
-		fr.c.Inconclusive("harness Data was not queued by the link service: " + err.Error())
+		fr.c.Inconclusive(fmt.Sprintf("harness Data was not queued by the link service: %v (face %d token %x mode %s claimed %v)", err, st.Face, st.token, st.TokMode, st.ClaimedInFace != nil))
 		fr.stop = true
 		return
 	}
